@@ -1293,38 +1293,46 @@ Proof.
   apply IHf. simpl. rewrite run_snoc. congruence.
 Qed.
 
-Arguments run_timer : simpl never.
-Arguments run_tgt : simpl never.
-
-Lemma settle_is_run : forall f d, d_s d = run (rev (d_ls d)) (init 0) ->
-  d_s (settle f d) = run (rev (d_ls (settle f d))) (init 0).
+Lemma settle_is_run : forall tf f d, d_s d = run (rev (d_ls d)) (init 0) ->
+  d_s (settle tf f d) = run (rev (d_ls (settle tf f d))) (init 0).
 Proof.
   induction f; simpl; intros; auto. destruct (d_q d) as [|[i|] q]; auto.
   - apply IHf. unfold wake_tgt.
-    pose proof (run_timer_is_run FUEL i (mkDrv (d_s d) q (d_ls d)) H).
+    pose proof (run_timer_is_run tf i (mkDrv (d_s d) q (d_ls d)) H).
     destruct (tgt_enabled _); auto.
   - apply IHf. apply run_tgt_is_run. auto.
 Qed.
 
-Arguments settle : simpl never.
-
-Lemma exec_op_is_run : forall dp o, d_s (fst dp) = run (rev (d_ls (fst dp))) (init 0) ->
-  d_s (fst (exec_op dp o)) = run (rev (d_ls (fst (exec_op dp o)))) (init 0).
+Lemma exec_op_gen_is_run : forall tf f dp o, d_s (fst dp) = run (rev (d_ls (fst dp))) (init 0) ->
+  d_s (fst (exec_op_gen tf f dp o)) = run (rev (d_ls (fst (exec_op_gen tf f dp o)))) (init 0).
 Proof.
-  intros (d, pr) o H. simpl in H. destruct o; simpl;
-    try (unfold wake_tgt; simpl; destruct (tgt_enabled _); simpl; rewrite run_snoc; congruence);
-    try (rewrite run_snoc; congruence).
-  - apply settle_is_run; auto.
-  - rewrite run_snoc. f_equal. apply settle_is_run; auto.
-  - apply settle_is_run; auto.
+  intros tf f (d, pr) o H. cbn [fst] in H.
+  assert (SN : forall d' l, d_s d' = run (rev (d_ls d')) (init 0) ->
+               d_s (dstep d' l) = run (rev (d_ls (dstep d' l))) (init 0)).
+  { intros d' l H'. unfold dstep. cbn [d_s d_ls rev]. rewrite run_snoc. congruence. }
+  assert (WT : forall d', d_s d' = run (rev (d_ls d')) (init 0) ->
+               d_s (wake_tgt d') = run (rev (d_ls (wake_tgt d'))) (init 0)).
+  { intros d' H'. unfold wake_tgt. destruct (tgt_enabled _); auto. }
+  destruct o.
+  - exact (SN d (Mk k dur) H).
+  - exact (SN d (Abort i) H).
+  - exact (WT _ (SN d (TStop r) H)).
+  - exact (WT _ (SN d TKill H)).
+  - exact (WT _ (SN d TDrain H)).
+  - exact (settle_is_run tf f d H).
+  - exact (SN _ (Advance dt) (settle_is_run tf f d H)).
+  - exact (settle_is_run tf f d H).
 Qed.
 
+(* every scenario of the correspondence check is a run of the model: all theorems above
+   apply to the states the driver reaches *)
 Theorem exec_is_run : forall ops,
   d_s (fst (exec ops)) = run (rev (d_ls (fst (exec ops)))) (init 0).
 Proof.
-  intros. unfold exec.
+  intros. unfold exec, exec_op. generalize FUEL. intro f.
   assert (G : forall ops dp, d_s (fst dp) = run (rev (d_ls (fst dp))) (init 0) ->
-              d_s (fst (fold_left exec_op ops dp)) = run (rev (d_ls (fst (fold_left exec_op ops dp)))) (init 0)).
-  { induction ops0; simpl; intros; auto. apply IHops0. apply exec_op_is_run. auto. }
+              d_s (fst (fold_left (exec_op_gen f f) ops dp))
+              = run (rev (d_ls (fst (fold_left (exec_op_gen f f) ops dp)))) (init 0)).
+  { induction ops0; simpl; intros; auto. apply IHops0. apply exec_op_gen_is_run. auto. }
   apply G. reflexivity.
 Qed.
